@@ -5,8 +5,12 @@ package main
 // coq/Model/Fs.v, snapshots of the repository directory, and rendering all of it as Coq terms.
 
 import (
+	"bytes"
+	"context"
 	"fmt"
 	"os"
+	"os/exec"
+	"syscall"
 	"path/filepath"
 	"regexp"
 	"sort"
@@ -237,7 +241,6 @@ type straceOpts struct {
 	Paths   []string // -P filters (exact paths); nil = everything
 	Inject  string   // e.g. "renameat:signal=SIGKILL:when=2"
 	Env     []string
-	Stdin   string
 	Timeout time.Duration
 }
 
@@ -257,7 +260,7 @@ func straceCsvq(dir string, traceFile string, args []string, o straceOpts) (stri
 	if to == 0 {
 		to = 30 * time.Second
 	}
-	res := runCmd(dir, argv, o.Stdin, to, o.Env...)
+	res := runCmdNoStdin(dir, argv, to, o.Env...)
 	b, _ := os.ReadFile(traceFile)
 	return string(b), res
 }
@@ -526,4 +529,34 @@ func parallelDo(n, w int, job func(i int)) {
 	for k := 0; k < w; k++ {
 		<-done
 	}
+}
+
+// runCmdNoStdin is runCmd (sql.go) with stdin connected to /dev/null instead of an empty pipe:
+// with a pipe on stdin csvq reads a FROM-less SELECT from standard input.
+func runCmdNoStdin(dir string, argv []string, timeout time.Duration, extraEnv ...string) RunResult {
+	ctx, cancel := context.WithTimeout(context.Background(), timeout)
+	defer cancel()
+	script := "ulimit -v 4000000; exec \"$@\""
+	cmd := exec.CommandContext(ctx, "/bin/sh", append([]string{"-c", script, "sh"}, argv...)...)
+	cmd.Dir = dir
+	cmd.Env = append([]string{"HOME=" + dir, "PATH=/usr/bin:/bin", "TZ=UTC", "LANG=C"}, extraEnv...)
+	cmd.SysProcAttr = &syscall.SysProcAttr{Setpgid: true}
+	var so, se bytes.Buffer
+	cmd.Stdout, cmd.Stderr = &so, &se
+	err := cmd.Run()
+	res := RunResult{Stdout: so.String(), Stderr: se.String()}
+	if ctx.Err() == context.DeadlineExceeded {
+		res.TimedOut = true
+		if cmd.Process != nil {
+			_ = syscall.Kill(-cmd.Process.Pid, syscall.SIGKILL)
+		}
+	}
+	if err != nil {
+		if ee, ok := err.(*exec.ExitError); ok {
+			res.Code = ee.ExitCode()
+		} else {
+			res.Code = -1
+		}
+	}
+	return res
 }
